@@ -961,9 +961,38 @@ func ruleNilNil(c *Ctx, u *Universe, rule string, rels []string) {
 				}
 				// a result variable that can still hold its zero value (nil) when the function returns normally
 				if rv := retValue(ret, 0); !isNilConst(rv) && ret.Pos().IsValid() && ret.Block() != f.Recover && normalReturn(f, ret, nilTests(f)) {
-					for _, src := range allSources(rv) {
-						if isNilConst(src) {
-							bad = u.pos(ret.Pos()) + " (the result variable can still be nil there: no value was assigned on some path)"
+					ev := retValue(ret, 1)
+					evPhi, evIsPhi := ev.(*ssa.Phi)
+					rvPhi, rvIsPhi := rv.(*ssa.Phi)
+					switch {
+					case rvIsPhi && evIsPhi && rvPhi.Block() == evPhi.Block():
+						// value and error are joined at the same point (named results, single exit): a nil value is a defect
+						// only on an edge where the error is not known to be set either
+						for i := range rvPhi.Edges {
+							if i >= len(evPhi.Edges) {
+								break
+							}
+							valNil := false
+							for _, src := range allSources(rvPhi.Edges[i]) {
+								if isNilConst(src) {
+									valNil = true
+								}
+							}
+							errNil := false
+							for _, src := range allSources(evPhi.Edges[i]) {
+								if isNilConst(src) {
+									errNil = true
+								}
+							}
+							if valNil && errNil {
+								bad = u.pos(ret.Pos()) + " (the result variable can still be nil there: no value was assigned on some path)"
+							}
+						}
+					case isNilConst(ev) || !evIsPhi:
+						for _, src := range allSources(rv) {
+							if isNilConst(src) {
+								bad = u.pos(ret.Pos()) + " (the result variable can still be nil there: no value was assigned on some path)"
+							}
 						}
 					}
 				}
